@@ -348,6 +348,28 @@ def check_no_memoised_io(cx, rep):
     rep.floor('functions scanned for memoised file access', n, 50)
 
 
+def check_read_state_reset(cx, rep, srcs):
+    """what read() leaves in the object (a cursor, an end-of-stream latch, a count) is re-initialised when the source is closed or
+    opened again: a source that is closed and re-opened delivers its samples from the beginning again (C11 histories, C20 reuse).
+    The stream handle itself is exempt (close drops it, open makes a new one)."""
+    from .c19 import effective_stores
+    n = 0
+    for mod, c in srcs:
+        rd = effective_stores(cx, mod, c, 'read')
+        if not rd:
+            continue
+        reset = {}
+        for m_ in ('open', 'close', 'rewind'):
+            for f, vs in effective_stores(cx, mod, c, m_).items():
+                reset.setdefault(f, []).append(m_)
+        r = cx.model.find_method(mod, c, 'read')
+        for f in sorted(rd):
+            n += 1
+            rep.ob('a field that read() writes is re-initialised by open(), close() or rewind() (a re-opened source starts again)', f in reset, cx.where(r[0], r[2]), '%s.read:state-%s' % (c.name, f),
+                   '%s.%s is written by read() and by none of open / close / rewind' % (c.name, f), sample=dict(source=c.name, field=f, reset_by=reset.get(f)))
+    rep.floor('fields written by read() of a source', n, 1)
+
+
 def check_buffered_open(cx, rep):
     """the byte stream a file source reads from is a BUFFERED binary reader: read(n) of io.BufferedReader returns n bytes unless
     the stream ends, whereas a raw (buffering=0) file object returns whatever one system call delivers -- short chunks on pipes,
@@ -762,6 +784,7 @@ def check(repo, rep):
     check_buffered_open(cx, rep)
     check_no_memoised_io(cx, rep)
     check_stdin_not_closed(cx, rep)
+    check_read_state_reset(cx, rep, srcs)
     check_roles(cx, rep, lambda p: cx.in_module(p['where'], 'io'), floor=60)
     rep.explanation = ('Sibling agreement of the read() implementations of every concrete AudioSource subclass found in the class table (5 today), each resolved through its MRO and decided on every path: '
                        'the open test is the first test and its failing branch raises AudioIOError; every returned value is None or was tested non-empty on that path (never b""); file sources request '
